@@ -51,6 +51,45 @@ fn lines_of(s: &str) -> Value {
     Value::Array(s.lines().map(|l| Value::String(l.to_string())).collect())
 }
 
+/// Replace every token `digits.digits` by `<F>` and collect the values (x 10^4, rounded): floating-point
+/// tokens are compared numerically by the specification, not as strings.
+fn normalise_floats(text: &str) -> (Value, Value) {
+    let mut lines = vec![];
+    let mut floats = vec![];
+    for line in text.lines() {
+        let ch: Vec<char> = line.chars().collect();
+        let mut out = String::new();
+        let mut i = 0;
+        while i < ch.len() {
+            if ch[i].is_ascii_digit() && (i == 0 || !(ch[i - 1].is_ascii_alphanumeric() || ch[i - 1] == '.')) {
+                let mut j = i;
+                while j < ch.len() && ch[j].is_ascii_digit() {
+                    j += 1;
+                }
+                if j + 1 < ch.len() && ch[j] == '.' && ch[j + 1].is_ascii_digit() {
+                    let mut k = j + 1;
+                    while k < ch.len() && ch[k].is_ascii_digit() {
+                        k += 1;
+                    }
+                    let tok: String = ch[i..k].iter().collect();
+                    let v: f64 = tok.parse().unwrap_or(f64::NAN);
+                    floats.push(json!(project::scaled(v, 1e4)));
+                    out.push_str("<F>");
+                    i = k;
+                    continue;
+                }
+                out.extend(&ch[i..j]);
+                i = j;
+                continue;
+            }
+            out.push(ch[i]);
+            i += 1;
+        }
+        lines.push(Value::String(out));
+    }
+    (Value::Array(lines), Value::Array(floats))
+}
+
 /// decode one buffer and project the result
 fn decode_event(bytes: &[u8], want_text: bool, want_ops: bool, want_serde: bool) -> Value {
     let before = ALLOCATED.load(Ordering::Relaxed);
@@ -106,6 +145,7 @@ fn decode_event(bytes: &[u8], want_text: bool, want_ops: bool, want_serde: bool)
                     let text = frame.to_string();
                     let dbg = format!("{frame:?}");
                     let mut calc = Value::Null;
+                    let mut hceil: i64 = 0;
                     let vel = match &frame.df {
                         adsb_deku::DF::ADSB(a) => Some(&a.me),
                         adsb_deku::DF::TisB { cf, .. } => Some(&cf.me),
@@ -113,14 +153,21 @@ fn decode_event(bytes: &[u8], want_text: bool, want_ops: bool, want_serde: bool)
                     };
                     if let Some(adsb_deku::adsb::ME::AirborneVelocity(v)) = vel {
                         calc = project_calc(v);
+                        if let Some((h, _, _)) = v.calculate() {
+                            hceil = f64::from(h).ceil() as i64;
+                        }
                     }
-                    (text, dbg.len(), calc)
+                    (text, dbg.len(), calc, hceil)
                 }));
                 match ops {
-                    Ok((text, _dbglen, calc)) => {
+                    Ok((text, _dbglen, calc, hceil)) => {
                         ev.insert("ops".into(), json!("ok"));
+                        ev.insert("hceil".into(), json!(hceil));
                         if want_text {
-                            ev.insert("text".into(), lines_of(&text));
+                            let (lines, floats) = normalise_floats(&text);
+                            ev.insert("text".into(), lines);
+                            ev.insert("floats".into(), floats);
+                            ev.insert("rawtext".into(), lines_of(&text));
                         }
                         if !calc.is_null() {
                             ev.insert("calc".into(), calc);
